@@ -715,12 +715,19 @@ impl StagingStore for FsOcflStore {
 
         let old_namastes = find_files(&object_root, OBJECT_NAMASTE_FILE_PREFIX)?;
 
-        if !old_namastes
-            .iter()
-            .any(|name| name.to_str() == Some(expected))
-        {
+        // An earlier attempt may have been interrupted after the new declaration was created and
+        // before it was filled in, or before the old declaration was removed
+        let expected_path = object_root.join(expected);
+        let complete = fs::read(&expected_path)
+            .map_or(false, |bytes| bytes == version.object_namaste().content.as_bytes());
+
+        if !complete {
+            util::remove_file_ignore_not_found(&expected_path)?;
             write_object_namaste(&object_root, version)?;
-            for old in old_namastes {
+        }
+
+        for old in old_namastes {
+            if old.to_str() != Some(expected) {
                 util::remove_file_ignore_not_found(&object_root.join(old))?;
             }
         }
